@@ -421,7 +421,7 @@ class C15(Check):
             "due cron minute or one-shot judged; distinct = distinct event sequences (kind, schedule, minute).")
     floors = {"counters.polls": 3000, "counters.cron_minutes_checked": 3000, "counters.cron_due_minutes": 500,
               "counters.oneshots_checked": 150, "events.poll_fail": 30, "events.kick_fail": 20}
-    quick_cases = 640
+    quick_cases = 1280
     thorough_cases = 12000
     thorough_time = 420.0
     assumptions = ["process time zone is UTC (the loop uses naive datetime.now())",
@@ -797,7 +797,7 @@ class C16(Check):
             "not cancelled, B with >=1 firing; distinct = distinct payload shapes / entry layouts.")
     floors = {"counters.on_ready_cases": 1500, "counters.cancelled": 300, "counters.label_firings": 1000,
               "counters.label_listings": 2000}
-    quick_cases = 6000
+    quick_cases = 8000
     thorough_cases = 200000
 
     def cases(self, rng: random.Random, tier: str, shard: int, nshards: int) -> Iterator[Any]:
